@@ -217,6 +217,61 @@ theorem literal_seq_history_free (e : Bool) (ls : List (Nat × Nat)) (hr : ∀ l
 example : (lexIntSeq [(10, true), (16, true), (8, false)] false [(10, int64Max + 1), (8, int64Max)]) =
     [.error .intOverflow, .error .intOverflow] := by decide
 
+/-! ### several rule files through one compiler -/
+
+theorem gen_add_file_pops_own_name : addFilePopsOwnName = true := by decide
+
+/-- `yr_compiler_add_file` leaves the include stack as it found it … -/
+theorem add_file_restores_stack (G : Guards) (MAX : Nat) (stack : List String) (name : String) (chain st : List String)
+    (h : addFile G MAX addFilePopsOwnName stack name chain = .ok st) : st = stack := by
+  rw [gen_add_file_pops_own_name] at h
+  unfold addFile at h
+  split at h
+  · cases h
+  · split at h
+    · cases h
+    · simpa using h.symm
+
+/-- … so **every file of a sequence meets the include-depth limit exactly as if it were the compiler's first file**:
+    the outcomes of a sequence are those of the single files on an empty stack, up to the first error. -/
+theorem file_seq_independent (G : Guards) (MAX : Nat) (fs : List (String × List String)) :
+    addFileSeq G MAX addFilePopsOwnName [] fs =
+      addFileSeq G MAX addFilePopsOwnName [] (fs.take 1) ++
+        (match fs with
+         | [] => []
+         | f :: rest => if (addFile G MAX addFilePopsOwnName [] f.1 f.2).isOk then addFileSeq G MAX addFilePopsOwnName [] rest else []) := by
+  cases fs with
+  | nil => rfl
+  | cons f rest =>
+    obtain ⟨name, chain⟩ := f
+    cases hf : addFile G MAX addFilePopsOwnName [] name chain with
+    | error e => simp [addFileSeq, hf, Except.isOk, Except.toBool]
+    | ok st =>
+      have := add_file_restores_stack G MAX [] name chain st hf
+      subst this
+      simp [addFileSeq, hf, Except.isOk, Except.toBool]
+
+/-- what the matching pop prevents: with the name left on the stack the third plain file of a compiler with `MAX = 2` is rejected -/
+example : addFileSeq Guards.spec 2 false [] [("a", []), ("b", []), ("c", [])] = [none, none, some .includeDepth] ∧
+    addFileSeq Guards.spec 2 true [] [("a", []), ("b", []), ("c", [])] = [none, none, none] := by decide
+
+/-- the strings-per-rule count of `countStrings` is over ALL strings of the rule — referenced, anonymous and unreferenced `$_…`
+    alike: the translated loop body has no way round `strings_in_rule++` -/
+theorem gen_spr_counts_every_string : sprCountsEveryString = true := by decide
+
+/-! ### resumed scans -/
+
+/-- **One scan, one deadline**: the stopwatch is not restarted when a suspended scan is resumed, so the time compared with
+    the timeout is the time since the scan's first call — a scan whose single waits are all shorter than the timeout still
+    times out once their sum exceeds it. -/
+theorem resume_deadline_from_first_call (ws : List Nat) (timeout : Nat) :
+    seenElapsed stopwatchRestartsOnResume ws = ws.sum ∧
+    (Guards.spec.blockExpired (seenElapsed stopwatchRestartsOnResume ws) timeout = true ↔ ws.sum > timeout) := by
+  have e : stopwatchRestartsOnResume = false := by decide
+  simp [seenElapsed, e, Guards.spec]
+
+example : seenElapsed true [300, 300, 300, 300, 300] = 300 ∧ seenElapsed false [300, 300, 300, 300, 300] = 1500 := by decide
+
 variable {G : Guards} (hG : G.Sound)
 include hG
 set_option linter.unusedSectionVars false
